@@ -1,16 +1,18 @@
 """C19 - the example CAN tunnel is transparent.
 
-The talker's packet-building functions (init_cf_pdu, prepare_acf_packet,
-update_cf_length) and the listener's receive path (new_packet) are interpreted
-by the bit-provenance engine over the IR of the example programs linked with
-the library; recv/write/clock_gettime/stdio are modelled.  CAN identifier,
+The talker's real main() (sending loop: init_cf_pdu, prepare_acf_packet,
+update_cf_length and the length bookkeeping) and the listener's receive path
+(new_packet) are interpreted by the bit-provenance engine over the IR of the
+example programs linked with the library; argp_parse and the socket helpers
+are replaced by models, read() delivers the input frames, the first sendto()
+records the packet, recv/write connect the two halves.  CAN identifier,
 flags and data stay symbolic; frame length, control format, encapsulation and
 the number of frames per packet are enumerated.  The frame(s) the listener
 writes are compared, bit for bit, with the frame(s) the talker was given.
 
-Scope limits (stated in DESIGN.md 4.19): the talker's main() loop (socket
-setup, read(), sendto()) is mirrored by the script below, not analysed; input
-frames are well-formed (a standard frame has no identifier bits above bit 10)."""
+Scope limits (stated in DESIGN.md 4.19): the listener's main()/poll loop and
+option parsing are not analysed; socket I/O is modelled; input frames are
+well-formed (a standard frame has no identifier bits above bit 10)."""
 import os
 
 from .. import bits as B
@@ -392,7 +394,7 @@ def run(tier, res):
                 'compared': 'can_id bits, len, data of the frame handed to write()'})
     res.rule = __doc__
     res.explanation = __doc__
-    res.assumptions += ['the talker main() loop is mirrored by the analysis script, not analysed', 'input frames are well-formed',
+    res.assumptions += ['the listener main()/poll loop and option parsing are not analysed', 'input frames are well-formed',
                         'recv/write/clock_gettime/stdio are modelled']
     build.cleanup()
     return res
